@@ -5,6 +5,7 @@ Driver for the `disk` protocol (C09, C11): `driver disk <mem|file|spec>`.
 -/
 import Driver.Util
 import GooseVerif.Model.Disk
+import GooseVerif.Model.ShortWrite
 import GooseVerif.Gen.DiskFacts
 
 namespace Driver.Disk
@@ -86,5 +87,29 @@ def specStep := mkStep (sparseImpl BS)
     let regs := regsOfImage BS img k
     some { size := n, writes := (List.range k).zip regs })
   (fun sp n => some { size := n, writes := sp.writes.filter (fun p => p.1 < n) })
+
+/-- `driver disk sw`: the retry loop of `FileDisk.Write` (Model/ShortWrite) under a given schedule of kernel answers.
+  sw <blocklen> <oldfill> <newfill> <answer…>     answer = `e` (error) or a byte count
+Replies `ok|panic|running <hash of the block afterwards> <frame>`; frame = `frame-ok` iff the 64 bytes before and after the block
+are unchanged.  The block lies at offset 8192 of a file filled with <oldfill>. -/
+def swStep (_ : Unit) (ws : List String) : Unit × String :=
+  open GooseVerif.Model.ShortWrite in
+  match ws with
+  | "sw" :: len :: old :: new :: answers =>
+    match len.toNat?, old.toNat?, new.toNat?, answers.mapM (fun a => if a = "e" then some Ans.err else a.toNat?.map Ans.wrote) with
+    | some len, some old, some new, some as =>
+      let off := 8192
+      let f : File := fun _ => UInt8.ofNat old
+      let v := List.replicate len (UInt8.ofNat new)
+      let render (tag : String) (g : File) : String :=
+        let blk := (List.range len).map (fun i => g (off + i))
+        let frame := (List.range 64).all (fun i => g (off - 64 + i) == f (off - 64 + i) && g (off + len + i) == f (off + len + i))
+        s!"{tag} {hashBytes blk} {if frame then "frame-ok" else "frame-broken"}"
+      match writeLoop v off f 0 as with
+      | some (.ok g) => ((), render "ok" g)
+      | some (.panic g) => ((), render "panic" g)
+      | none => ((), "running")
+    | _, _, _, _ => ((), "bad-op")
+  | _ => ((), "bad-op")
 
 end Driver.Disk
